@@ -255,7 +255,8 @@ def processSel (rec : Cfg → St → Except Err (List Sel × St)) (cfg : Cfg) (l
     let addVars (st : St) : St := { st with vars := st.vars ++ gv ++ dirVars d }
     if sub.isEmpty then .ok (.field a n g gv d t sub, addVars st)
     else
-      match rec { cfg with parentType := t, sel := sub, ip := cfg.ip ++ [a], wrapper := fieldWrapper cfg.wrapper d } st with
+      -- beneath a field nothing has been split yet: the step's own fragment definitions do not apply there
+      match rec { cfg with parentType := t, stepFrags := [], sel := sub, ip := cfg.ip ++ [a], wrapper := fieldWrapper cfg.wrapper d } st with
       | .error e => .error e
       | .ok (sub', st') => .ok (.field a n g gv d t sub', addVars st')
   | .spread name dirs =>
@@ -265,7 +266,15 @@ def processSel (rec : Cfg → St → Except Err (List Sel × St)) (cfg : Cfg) (l
     | some defn =>
       match rec { cfg with parentType := defn.cond, sel := defn.sub, wrapper := cfg.wrapper ++ [.spread name dirs] } st with
       | .error e => .error e
-      | .ok (sub', st') => .ok (.spread name dirs, { st' with frags := putFrag ⟨name, defn.cond, defn.dirs, sub'⟩ st'.frags })
+      | .ok (sub', st') =>
+        match findFrag st'.frags name with
+        | none => .ok (.spread name dirs, { st' with frags := st'.frags ++ [⟨name, defn.cond, defn.dirs, sub'⟩] })
+        | some existing =>
+          -- the step already carries a part of this fragment: the same one (it splits the same way here), or
+          -- another one — then this place gets its part inline, one name cannot stand for both.  (A fragment
+          -- definition always has a type condition; the model keeps the spread for an empty one.)
+          if beqSels existing.sub sub' || defn.cond == "" then .ok (.spread name dirs, st')
+          else .ok (.inline defn.cond dirs sub', st')
   | .inline cond dirs sub =>
     let st := { st with vars := st.vars ++ dirVars dirs }
     match rec { cfg with parentType := (if cond == "" then cfg.parentType else cond), sel := sub,
